@@ -81,7 +81,8 @@ func (p *PropertyDescriptor) IsGeneric() bool {
 
 func (p *PropertyDescriptor) toValue(r *Runtime) Value {
 	if p.jsDescriptor != nil {
-		return p.jsDescriptor
+		// a PropertyDescriptor is a Go value and can be carried over to another Runtime by the host
+		return r.ToValue(p.jsDescriptor)
 	}
 	if p.Empty() {
 		return _undefined
@@ -90,7 +91,7 @@ func (p *PropertyDescriptor) toValue(r *Runtime) Value {
 	s := o.self
 
 	if p.Value != nil {
-		s._putProp("value", p.Value, true, true, true)
+		s._putProp("value", r.ToValue(p.Value), true, true, true)
 	}
 
 	if p.Writable != FLAG_NOT_SET {
@@ -106,10 +107,10 @@ func (p *PropertyDescriptor) toValue(r *Runtime) Value {
 	}
 
 	if p.Getter != nil {
-		s._putProp("get", p.Getter, true, true, true)
+		s._putProp("get", r.ToValue(p.Getter), true, true, true)
 	}
 	if p.Setter != nil {
-		s._putProp("set", p.Setter, true, true, true)
+		s._putProp("set", r.ToValue(p.Setter), true, true, true)
 	}
 
 	return o
